@@ -84,7 +84,7 @@ func (pt *patienceT) callDeadline() (time.Duration, bool) {
 	case pt.caseFailed:
 		return time.Second, true
 	case pt.failedCases >= fullFailures:
-		return 250 * time.Millisecond, false
+		return 50 * time.Millisecond, false
 	default:
 		return liveDeadline, true
 	}
